@@ -1010,6 +1010,9 @@ var crossKinds = []int{pXBasic, pXAssert, pXPost, pXPostID, pXDup}
 
 // drawForms: the concrete strings and wire encodings behind the abstract presentation
 func drawForms(r drv.Rand, p presT) presT {
+	if isCross(p.Kind) {
+		return p // the cross-client presentations send exact ids and secrets in the standard encoding (and rely on the parameter order)
+	}
 	p.BF, p.PF, p.IDF, p.AF = r.IntN(64), r.IntN(64), r.IntN(64), r.IntN(64)
 	if p.Kind == pBasic || p.Kind == pBoth || p.Kind == pNearID {
 		if p.Pct {
